@@ -202,6 +202,9 @@ func (c *UDPConn) readTimeoutError() error {
 // ReadFromUDP acts like ReadFrom but returns a UDPAddr.
 func (c *UDPConn) ReadFromUDP(b []byte) (int, *net.UDPAddr, error) {
 	n, addr, err := c.ReadFrom(b)
+	if err != nil {
+		return n, nil, err
+	}
 
 	udpAddr, ok := addr.(*net.UDPAddr)
 	if !ok {
